@@ -146,7 +146,7 @@ def main():
                   "per-tier ledger runs/<id>.<tier>.json. VERIF_NPROC limits workers (default 16); VERIF_SEED only rotates which witnesses are kept "
                   "as samples. On an idle 16-core machine the quick tier of all 29 checks takes about 11 minutes in total (largest: C11 ~95 s, C13 ~55 s), "
                   "the thorough tier about 3.5 hours in total (largest: C01, C02, C07, C11 at 13-20 min each). "
-                  "Repaired defects are `fix:` commits in /repo listed under `fixed` in known_findings.json; 174 confirmed seeded property-breaking "
+                  "Repaired defects are `fix:` commits in /repo listed under `fixed` in known_findings.json; " + str(len([d for d in os.listdir(os.path.join(ROOT, "seeded")) if d[0] == "C"])) + " confirmed seeded property-breaking "
                   "changes with their detection logs are under seeded/ (DESIGN.md section 9.4)."),
     }
     with open(os.path.join(ROOT, "MANIFEST.json"), "w") as f:
